@@ -241,6 +241,18 @@ CHECKS = {
         design_ref='§7 C19',
         note=NOTE_COMMON + 'Placements are a fixed residue class of the coordinate grid (quick 1/40, thorough 1/4).',
         technique='TLA+ character-level gate specification, TLC-enumerated placements written to real files, trace validation of exception and report'),
+    'C20': dict(
+        category='model_checking',
+        text=('The two runtime copies are two renderings of one helper interface (Runtime2: SameHelpers, Agree). The argument vectors are the ones the '
+              'specification generates for the other properties, taken at helper level - Gen_C10 pairs x 6 operators, Gen_C16 decimals x digit counts, Gen_C15 '
+              'rows (DATE, EDATE/EOMONTH, DATEDIF incl. MD/YD, NETWORKDAYS), Gen_C17 rows (LEFT/RIGHT/MID, SEARCH, VALUE, text forms), Gen_C11 blocks, Gen_C14 key '
+              'columns (all match / search modes incl. binary search, VLOOKUP columns beyond the table), all INDEX index pairs, ADDRESS columns, Gen_C12 columns x '
+              'criteria as callables - plus listed vectors for the remaining helpers (every helper of the base class has at least one). Each vector is applied to '
+              'AbstractExcelInPython() and to an instance of a class generated from the working tree; the helper-name sets and the digests of each pair of '
+              'outcomes (canonical value text or exception type) are judged by TLC (Trace_C20).'),
+        design_ref='§7 C20',
+        note=NOTE_COMMON + 'Agreement only: what the helpers should return is decided by C10-C17. Blank cells inside vectors are instantiated per copy from its own EmptyCell class.',
+        technique='TLC-generated helper-level vectors applied to both runtime copies, agreement judged by TLC trace validation (Runtime2.Agree)'),
 }
 
 NOT_APPLICABLE = {}
